@@ -535,6 +535,7 @@ def write_evidence(args, agg, hellos, wall, n_runs, n_twins, n_echo, lines, rc):
                 "F1_failing_reads": agg.fired["F1"], "F2_drop_volatile_state": agg.fired["F2"],
                 "F3_persistence_round_trip": agg.fired["F3"], "F4_poisoned_companion_failures": agg.fired["F4"],
                 "F5_warning_raised_in_read": agg.fired["F5"],
+                "F6_read_under_hostile_host_state (little stack left / numpy errstate raise)": agg.fired["F6"],
             },
             "runs_in_which_fault_fired": dict(agg.fired_runs),
             "fault_configurations": dict(agg.fault_sets),
